@@ -163,8 +163,15 @@ CLAIMED = {
                 "command's outcome, output events and visible names are "
                 "compared with an executable reference model, a repeated "
                 "failing command with the error it gave the first time. "
+                "About a fifth of the histories are driven through the real "
+                "REPL loop (ckl.repl.main with simulated input/print) "
+                "instead of direct interpret calls; caller-supplied "
+                "environments move between the two instances; commands are "
+                "re-issued verbatim later and strings are modified in place. "
                 "Evidence, not proof: bounded by the seeds run.",
-        "note": "Trusted: the reference model simckl/lang.py (session "
+        "note": "No step faults in this check (planned failures at every "
+                "statement position plus mirrored stream/store faults are "
+                "used instead). Trusted: the reference model simckl/lang.py (session "
                 "semantics as the statement gives them), the module-attribute "
                 "seams (faults do not fire on code paths that bypass them; "
                 "the audit hook reports bypasses), CPython's sys.monitoring. "
